@@ -14,12 +14,17 @@ fn plans(_t: Tier) -> Vec<&'static str> {
     ALL_PLANS.to_vec()
 }
 
-fn alphabet(_plan: &str, _v: &str, t: Tier) -> Alphabet {
+fn alphabet(_plan: &str, v: &str, t: Tier) -> Alphabet {
+    if v == "stress" {
+        // long mixed-size bursts: the precise-stress paths juggle the limits of both bump
+        // pointers, which only matters once many blocks have been consumed
+        return Alphabet { sizes: vec![40, 264], sems: vec![Sem::Default], gc_kinds: vec![false, true], bursts: vec![(1, 2400, 3), (264, 100, 2)], eph_chains: vec![], two_mutators: false, pins: false, cross_writes: false, fields: 0 };
+    }
     Alphabet {
         sizes: vec![40, 264, 81920],
         sems: vec![Sem::Default],
         gc_kinds: vec![false, true],
-        bursts: if t == Tier::Thorough { vec![(264, 150, 2), (40, 400, 3), (2048, 40, 2), (8184, 12, 2)] } else { vec![(264, 100, 2), (40, 250, 3), (2048, 24, 2)] },
+        bursts: if t == Tier::Thorough { vec![(264, 150, 2), (40, 400, 3), (2048, 40, 2), (1, 400, 3)] } else { vec![(264, 100, 2), (40, 250, 3), (1, 160, 3)] },
         eph_chains: vec![], two_mutators: true,
         pins: false,
         cross_writes: false,
@@ -27,7 +32,16 @@ fn alphabet(_plan: &str, _v: &str, t: Tier) -> Alphabet {
     }
 }
 
-fn depth(plan: &str, _v: &str, t: Tier) -> usize {
+fn depth(plan: &str, v: &str, t: Tier) -> usize {
+    let d = depth_main(plan, t);
+    if v == "stress" {
+        (d - 1).min(3)
+    } else {
+        d
+    }
+}
+
+fn depth_main(plan: &str, t: Tier) -> usize {
     match (plan, t) {
         ("NoGC", _) => 2,
         ("MarkCompact", Tier::Quick) | ("PageProtect", Tier::Quick) => 3,
@@ -37,13 +51,24 @@ fn depth(plan: &str, _v: &str, t: Tier) -> usize {
     }
 }
 
-fn variants(_plan: &str, _t: Tier) -> Vec<&'static str> {
-    vec![""]
+/// "" = default options; "stress" = `stress_factor` set (with the default `precise_stress`), which
+/// sends every allocation through the allocators' precise-stress slow paths.
+fn variants(plan: &str, _t: Tier) -> Vec<&'static str> {
+    if plan == "NoGC" {
+        vec![""]
+    } else {
+        vec!["", "stress"]
+    }
 }
 
-fn boot(plan: &str, _t: Tier) -> BootCfg {
+fn boot(plan: &str, v: &str, _t: Tier) -> BootCfg {
     let mut c = BootCfg::new(plan);
     c.heap_bytes = if plan == "NoGC" { 3 << 30 } else { 32 << 20 };
+    if v == "stress" {
+        // a stress GC every 8 MiB of allocation: rare enough to keep the programs' own GC
+        // structure, but every allocation takes the precise-stress path
+        c.options.push(("stress_factor".to_string(), format!("{}", 8 << 20)));
+    }
     c
 }
 
@@ -72,7 +97,7 @@ pub const PROFILE: Profile = Profile {
     owns,
     nontrivial,
     filter,
-    rule: "every program of length <= depth over {alloc(40 B | 264 B | 80 KiB), burst(size,count,keep-every-k) in {(264,100,2),(40,250,3),(2048,24,2)} (thorough: (264,150,2),(40,400,3),(2048,40,2),(8184,12,2)) (fragmenting: the dropped ones leave holes next to live data), drop root, GC(normal), GC(exhaustive), bind/destroy a second mutator that allocates too} ending in an allocation, per plan; every address range returned by alloc must be disjoint from every shadow-reachable object and from every range handed out since the last collection. distinct_nontrivial = programs with an allocation after a collection that found both live and dead objects",
+    rule: "every program of length <= depth over {alloc(40 B | 264 B | 80 KiB), burst(size,count,keep-every-k) in {(264,100,2),(40,250,3),(mixed sizes 40/264/520/1032/2048 interleaved,160,3)} (thorough: (264,150,2),(40,400,3),(2048,40,2),(mixed,400,3)) (fragmenting: the dropped ones leave holes next to live data), drop root, GC(normal), GC(exhaustive), bind/destroy a second mutator that allocates too} ending in an allocation, per plan, once with default options and once (one level shallower) with stress_factor set, which routes every allocation through the precise-stress slow paths; every address range returned by alloc must be disjoint from every shadow-reachable object and from every range handed out since the last collection. distinct_nontrivial = programs with an allocation after a collection that found both live and dead objects",
     post: None,
     timeout_s: |t| t.pick(300, 3000),
 };
